@@ -35,11 +35,18 @@ def strip_end(src, dst):
     return dst
 
 
-def judge(ck, events, name, codes, timeout=1500):
-    """Write events (+End) to a file, run the trace spec, return (rejected lines, notes by line)."""
+def judge(ck, events, name, codes, timeout=1500, count=True):
+    """Write events (+End) to a file, run the trace spec, return (rejected lines, notes by line).
+    count=False: the run does not count towards the evidence (canaries, re-runs); the other thread may be
+    counting at the same time, so what this call added is taken off again rather than restoring a snapshot."""
     p = os.path.join(ck.work, name + ".ndjson")
     vlib.write_ndjson(p, events + [{"k": "End", "events": len(events)}])
     res, rej = ck.validate_events(MOD, CFG, p, timeout=timeout, name=name, heap_gb=4, extra_files={"codes.ndjson": codes})
+    if not count:
+        ck.states -= res.distinct
+        ck.transitions -= res.generated
+        ck.traces_ok -= len(events) - len(rej)
+        ck.evaluations -= len(events)
     notes = collections.defaultdict(list)
     for t in res.notes:
         notes[t[1]].append(t[2:])
@@ -47,12 +54,7 @@ def judge(ck, events, name, codes, timeout=1500):
 
 
 def quiet_judge(ck, events, name, codes):
-    """judge() that does not count towards the evidence (canaries, re-runs)."""
-    st = (ck.states, ck.transitions, ck.traces_ok, ck.evaluations)
-    try:
-        return judge(ck, events, name, codes)
-    finally:
-        ck.states, ck.transitions, ck.traces_ok, ck.evaluations = st
+    return judge(ck, events, name, codes, count=False)
 
 
 def first_note(notes, line, kind):
@@ -65,17 +67,20 @@ def first_note(notes, line, kind):
 # ------------------------------------------------------------------------------------- send pipeline
 def gen_vectors(ck, codes, seeds, wcs, rot):
     pp = os.path.join(ck.work, "params_%d.ndjson" % rot)
-    vlib.write_ndjson(pp, [{"seeds": seeds, "wcs": wcs, "maxpolls": 6, "rot": rot}])
+    # the account-state entry points get the full grid in both tiers; the caller-supplied seqnos of RawSend(V2) are thinned
+    # and their poll scripts bounded by 4 in the quick tier
+    rawseqs = ["0", "1", "7", "4294967295"] if ck.thorough else ["7", "4294967295"]
+    vlib.write_ndjson(pp, [{"seeds": seeds, "wcs": wcs, "maxpolls": 6, "rawmaxpolls": 6 if ck.thorough else 4, "rawseqs": rawseqs, "rot": rot}])
     res = ck.tlc_or_infra("WalletSend_Gen", "gen/WalletSend_Gen.cfg", files={"params.ndjson": pp, "codes.ndjson": codes},
                           workers=4, timeout=1200, name="gen_rot%d" % rot, heap_gb=4)
-    vs = res.vecs()
-    vs.sort(key=lambda v: json.dumps(v, sort_keys=True))
-    return vs, res
+    # TLC's workers print in any order: sort the texts so that vector numbers are reproducible
+    texts = sorted(t[1] for t in res.tuples("VEC") if len(t) >= 2 and isinstance(t[1], str))
+    return [json.loads(t) for t in texts], res
 
 
 def check_generator(vs):
     """The generator's own claims (vacuity): exit 2 if they fail."""
-    if len(vs) < 15000:
+    if len(vs) < 9000:
         raise Infra("generator produced only %d histories" % len(vs))
     seen = collections.Counter()
     for v in vs:
@@ -133,6 +138,8 @@ def run_key(r_, why):
         return "C15:confirm:polled-after-advance"            # ... and the call went on polling
     if why.startswith("Return:") and why[7:] in CONFIRM_WHY:
         return "C15:confirm:" + why[7:]
+    if why == "GetAddress":
+        return "C15:send:GetAddress:" + family(r_["ver"])    # the wallet object reports another address than the specification derives
     cls = r_["st"] if r_["entry"] in ("SendV2", "Send") else "caller-params"
     if why.split(":")[0] in ("Build", "Send", "Return"):
         return "C15:send:%s:%s:%s" % (why, family(r_["ver"]), cls)
@@ -155,26 +162,29 @@ def slim_run(r_):
     return r2
 
 
-def send_part(ck, codes, out):
-    rots = [0, 1, 2, 3, 4] if ck.thorough else [0]
-    W = 300 if ck.thorough else 150
-    seeds = ["%064x" % ck.rng.getrandbits(256) for _ in range(4 if ck.thorough else 2)]
-    wcs = [0, -1, 1, -128, 127] if ck.thorough else [0, -1]
-    vecs = []
-    for rot in rots:
-        vs, res = gen_vectors(ck, codes, seeds, wcs, rot)
-        check_generator(vs)
-        for v in vs:
-            v["W"], v["rot"], v["vec"] = W, rot, len(vecs)
-            vecs.append(v)
-        if rot == 0:
-            out["gen_states"] = res.distinct
-    runs = replay_vectors(ck, vecs, "vectors", 256)
-    nsh = 12 if ck.thorough else 8
+def window_ms(ck):
+    """Confirmation window. The wallet polls every window/10; on an oversubscribed machine the loop is slowed down, so the
+    window grows with the load (at most x2) to keep the scripted polls before the deadline."""
+    base = 400 if ck.thorough else 300
+    try:
+        load = os.getloadavg()[0] / vlib.NCPU
+    except OSError:
+        load = 0
+    return int(base * min(2.0, max(1.0, load / 1.5)))
+
+
+def one_rotation(ck, codes, seeds, wcs, rot, W, first_vec, out):
+    """Generate, replay and judge the histories of one key / workchain assignment. Returns (vectors, accepted runs, rejected (run, why))."""
+    vs, res = gen_vectors(ck, codes, seeds, wcs, rot)
+    check_generator(vs)
+    for i, v in enumerate(vs):
+        v["W"], v["rot"], v["vec"] = W, rot, first_vec + i
+    out.setdefault("gen_states", res.distinct)
+    runs = replay_vectors(ck, vs, "vectors_rot%d" % rot, 768)
+    nsh = 8
     shards = [runs[i::nsh] for i in range(nsh)]
-    results = vlib.parallel(lambda i: judge(ck, shards[i], "runs_%02d" % i, codes, timeout=2500), range(nsh), n=nsh)
-    rejected = []          # (run, why)
-    accepted = []
+    results = vlib.parallel(lambda i: judge(ck, shards[i], "runs_r%d_%02d" % (rot, i), codes, timeout=2500), range(nsh), n=nsh)
+    rejected, accepted = [], []
     for sh, (rej, notes) in zip(shards, results):
         bad = {r_["line"]: first_note(notes, r_["line"], "run") for r_ in rej}
         for i, r_ in enumerate(sh):
@@ -183,15 +193,15 @@ def send_part(ck, codes, out):
             else:
                 accepted.append(r_)
     # accepted behaviours whose outcome is not the history's (the scripted poll was not reached before the deadline under load):
-    # replay those histories again with a longer window, a few at a time
+    # replay those histories again with a longer window
     again = [r_ for r_ in accepted if outcome_differs(r_)]
-    out["rerun_for_timing"] = len(again)
+    out["rerun_for_timing"] = out.get("rerun_for_timing", 0) + len(again)
     if again:
-        if len(again) > len(vecs) // 10:
+        if len(again) > len(vs) // 8:
             raise Infra("%d accepted runs do not show the outcome their history requires (machine too loaded?)" % len(again))
-        v2 = [dict(vecs[r_["vec"]], W=4 * W) for r_ in again]
-        runs2 = replay_vectors(ck, v2, "vectors_again", 16)
-        rej2, notes2 = quiet_judge(ck, runs2, "runs_again", codes)
+        v2 = [dict(vs[r_["vec"] - first_vec], W=3 * W) for r_ in again]
+        runs2 = replay_vectors(ck, v2, "vectors_again_rot%d" % rot, 48)
+        rej2, notes2 = quiet_judge(ck, runs2, "runs_again_rot%d" % rot, codes)
         bad2 = {r_["line"]: first_note(notes2, r_["line"], "run") for r_ in rej2}
         for i, r_ in enumerate(runs2):
             if i + 1 in bad2:
@@ -199,13 +209,29 @@ def send_part(ck, codes, out):
                 ck.traces_ok -= 1
             elif outcome_differs(r_):
                 raise Infra("vector %d: the run is a legal behaviour but twice not the outcome the history requires: %s" % (r_["vec"], json.dumps(slim_run(r_))[:1500]))
+        gone = {r_["vec"] for r_ in again}
+        accepted = [r_ for r_ in accepted if r_["vec"] not in gone]
+    out.setdefault("runs", runs)          # rotation 0, for the canaries
+    return vs, accepted, rejected
+
+
+def send_part(ck, codes, out):
+    rots = [0, 1, 2, 3, 4] if ck.thorough else [0]
+    W = window_ms(ck)
+    seeds = ["%064x" % ck.rng.getrandbits(256) for _ in range(4 if ck.thorough else 2)]
+    wcs = [0, -1, 1, -128, 127] if ck.thorough else [0, -1]
+    nvec = nacc = nrej = 0
+    by_key = collections.OrderedDict()        # key -> [count, vector, run, why]
+    for rot in rots:
+        vs, accepted, rejected = one_rotation(ck, codes, seeds, wcs, rot, W, nvec, out)
+        nvec, nacc, nrej = nvec + len(vs), nacc + len(accepted), nrej + len(rejected)
+        for r_, why in sorted(rejected, key=lambda x: x[0]["vec"]):
+            ent = by_key.setdefault(run_key(r_, why), [0, vs[r_["vec"] - vs[0]["vec"]], r_, why])
+            ent[0] += 1
+        if rot == 0:
+            out["vecs"], out["accepted"] = vs, accepted          # kept for the canaries and the samples
     # violations, one report per key; time-dependent ones are reproduced with a longer window first
-    by_key = collections.OrderedDict()
-    for r_, why in sorted(rejected, key=lambda x: x[0]["vec"]):
-        by_key.setdefault(run_key(r_, why), []).append((r_, why))
-    for key, items in by_key.items():
-        r_, why = items[0]
-        v = vecs[r_["vec"]]
+    for key, (count, v, r_, why) in by_key.items():
         if key.startswith("C15:confirm:"):
             r3 = replay_vectors(ck, [dict(v, W=3 * W)], "reproduce_%d" % r_["vec"], 1)[0]
             rej3, notes3 = quiet_judge(ck, [r3], "reproduce_%d_judge" % r_["vec"], codes)
@@ -216,11 +242,10 @@ def send_part(ck, codes, out):
                 "returned %s after %d polls (%d histories of this class)") % (
             r_["ver"], r_["entry"], r_["confirm"], r_["st"] or "-", "(" + r_["n"] + ")" if r_["n"] else "", v["send"] or "-",
             "".join({"err": "E", "val": "="}.get(p["r"]) if (p["r"] == "err" or p["v"] == v["same"]) else "+" for p in v["polls"]) or "-",
-            why, v["exp"]["res"], " at poll %d" % v["exp"]["npolls"] if v["exp"]["advanced"] else "", f["res"], f["npolls"], len(items))
-        for _ in items:
+            why, v["exp"]["res"], " at poll %d" % v["exp"]["npolls"] if v["exp"]["advanced"] else "", f["res"], f["npolls"], count)
+        for _ in range(count):
             ck.report(key, what, {"kind": "run", "vector": v, "why": why, "run": slim_run(r_)})
-    out["vectors"], out["runs_accepted"], out["runs_rejected"] = len(vecs), len(accepted), len(rejected)
-    out["vecs"], out["accepted"], out["W"] = vecs, accepted, W
+    out["vectors"], out["runs_accepted"], out["runs_rejected"], out["W"] = nvec, nacc, nrej, W
     return out
 
 
@@ -316,13 +341,14 @@ def addr_part(ck, codes, out):
         for _ in items:
             ck.report(key, what, {"kind": "event", "event": {k: v for k, v in e.items() if k != "_ok"}})
     # the 'different whenever an input differs' clause, over everything recorded
-    rows = [{k: e[k] for k in ROWF} for e in events if e["k"] == "Addr" and e["err"] == "" and e["addr"]]
+    rows = [dict({k: e[k] for k in ROWF}, _ok=e["_ok"]) for e in events if e["k"] == "Addr" and e["err"] == "" and e["addr"]]
     for e in rows:
         inputs.add((e["ver"], e["pub"], e["wc_set"], e["wc"], e["sub"], e["has_net"], e["net"]))
-    rej, notes = judge(ck, [{"k": "Distinct", "rows": rows}], "distinct_all", codes)
+    norm = lambda rs: [{k: v for k, v in r_.items() if k != "_ok"} for r_ in rs]
+    rej, notes = judge(ck, [{"k": "Distinct", "rows": norm(rows)}], "distinct_all", codes)
     out["distinct_all"] = "rejected" if rej else "accepted"
     if rej:
-        okrows = [{k: e[k] for k in ROWF} for e in events if e["k"] == "Addr" and e["_ok"] and e["addr"]]
+        okrows = norm([r_ for r_ in rows if r_["_ok"]])
         rej2, notes2 = quiet_judge(ck, [{"k": "Distinct", "rows": okrows}], "distinct_ok", codes)
         if rej2 or not rejected:
             w = first_note(notes2 if rej2 else notes, 1, "distinct")
@@ -332,7 +358,7 @@ def addr_part(ck, codes, out):
                 key = "C15:addr:collision:" + "+".join(vers)
             except Exception:
                 col, key = w, "C15:addr:collision"
-            ck.report(key, "different inputs yield the same address: %s" % json.dumps(col)[:900], {"kind": "distinct", "rows": okrows if rej2 else rows})
+            ck.report(key, "different inputs yield the same address: %s" % json.dumps(col)[:900], {"kind": "distinct", "rows": okrows if rej2 else norm(rows)})
         else:
             ck.notes.append("the distinctness clause fails over all recorded addresses only through the events already reported (%s): "
                             "it holds over the accepted ones" % ", ".join(groups))
@@ -342,100 +368,178 @@ def addr_part(ck, codes, out):
 
 # ---------------------------------------------------------------------------------------------- canaries
 def canaries(ck, codes, send, addr):
-    evs = []
-    names = []
-    # --- send runs
-    acc = send["accepted"]
-    W = send["W"]
+    """Corrupted copies of recorded (or, where the implementation produced none of the needed shape, of conforming synthetic)
+    records must be rejected; the unaltered ones accepted. A canary that cannot be built is an infrastructure failure unless
+    violations were reported (an implementation that never behaves in the needed way is reported, not masked by exit 2)."""
+    cases, skipped = [], []          # cases: [name, event, must_reject, depends_on_control]
+    acc, allruns, W = send["accepted"], send["runs"], send["W"]
 
-    def pick(pred, what):
-        for r_ in acc:
+    def pick(pred, pool=None):
+        for r_ in (acc if pool is None else pool):
             if pred(r_):
                 return copy.deepcopy(r_)
-        raise Infra("no accepted run to build the canary '%s' from" % what)
-    # 1. the chain said 'uninit', the log says 'active(5)': seqno 0 + init is then no behaviour
-    c = pick(lambda r_: r_["entry"] == "SendV2" and r_["st"] == "uninit" and r_["ver"] == "V4R2" and run_facts(r_)["sent"], "state")
-    for s in c["steps"]:
-        if s["k"] == "GetState":
-            s["st"], s["n"] = "active", "5"
-    evs.append(c); names.append("run: logged account state changed to active(5)")
-    # 2. timed-out confirmation logged as success
+        raise LookupError()
+
+    def add(name, f, dep=None):
+        try:
+            cases.append([name, f(), True, dep])
+        except LookupError:
+            skipped.append(name)
+
+    sent_ok = lambda r_: any(s["k"] == "Send" and s["r"] == "ok" for s in r_["steps"])
     tout = lambda r_: (r_["confirm"] and r_["ver"] != "HighLoadV2R2" and run_facts(r_)["res"] == "err" and run_facts(r_)["npolls"] >= 6
-                       and r_["exp"]["res"] == "err" and r_["exp"]["sent"] and r_["steps"][-1]["k"] == "Return" and
-                       any(s["k"] == "Send" and s["r"] == "ok" for s in r_["steps"]))
-    c = pick(tout, "timeout->ok")
-    c["steps"][-1]["res"] = "ok"
-    evs.append(c); names.append("run: timeout logged as success")
-    # 3. the signature of the confirmation defect: a poll saw the seqno advanced, the run went on polling and timed out
-    c = pick(lambda r_: tout(r_) and r_["n"] != "4294967295" and r_["rawseq"] != "4294967295", "advance-ignored")
-    k = [i for i, s in enumerate(c["steps"]) if s["k"] == "Poll"][2]
-    c["steps"][k]["r"], c["steps"][k]["v"] = "val", "4294967295"
-    evs.append(c); names.append("run: a poll reports the seqno advanced, polling continues to the timeout")
-    # 4. an error long before the deadline
-    c = pick(tout, "early-error")
-    c["steps"] = [s for s in c["steps"] if s["k"] != "Poll"][:-1] + [{"k": "Return", "res": "err", "us": W * 300}]
-    evs.append(c); names.append("run: error returned at a third of the window")
-    # 5. message addressed elsewhere (the wallet of the log lives in another workchain)
-    c = pick(lambda r_: run_facts(r_)["sent"] and r_["wc"] == 0, "dest")
-    c["wc"] = 1
-    evs.append(c); names.append("run: destination is not the wallet's own address")
-    # 6. nothing was sent but the call reports success
-    c = pick(lambda r_: r_["entry"] == "Send" and run_facts(r_)["sent"] and run_facts(r_)["res"] == "ok", "nosend")
-    c["steps"] = [s for s in c["steps"] if s["k"] != "Send"]
-    evs.append(c); names.append("run: Send step dropped")
-    # 7. init attached for an active account
-    c = pick(lambda r_: r_["entry"] == "SendV2" and r_["st"] == "none" and run_facts(r_)["sent"] and r_["ver"] == "V5R1", "init")
-    for s in c["steps"]:
-        if s["k"] == "GetState":
-            s["st"], s["n"] = "active", "0"
-    evs.append(c); names.append("run: init attached although the account is active")
-    nrun = len(evs)
+                       and r_["exp"]["res"] == "err" and r_["exp"]["sent"] and r_["steps"][-1]["k"] == "Return" and sent_ok(r_)
+                       and not r_["exp"]["free"])
+    notmax = lambda r_: r_["n"] != "4294967295" and r_["rawseq"] != "4294967295"
+    synth = {}
+
+    def timeout_base(extra=lambda r_: True):
+        """a run that sent, polled without seeing an advance and gave up at the deadline"""
+        try:
+            return pick(lambda r_: tout(r_) and extra(r_)), None
+        except LookupError:
+            pass
+        # what a conforming wallet would have logged, around a message the real code produced
+        r_ = pick(lambda r_: r_["confirm"] and r_["ver"] != "HighLoadV2R2" and sent_ok(r_) and not r_["exp"]["free"] and extra(r_), allruns)
+        k = next(i for i, s in enumerate(r_["steps"]) if s["k"] == "Send")
+        r_["steps"] = r_["steps"][:k + 1] + [
+            {"k": "Poll", "i": i + 1, "r": "val", "v": r_["exp"]["seq"], "us": i * W * 100 + 7, "scripted": False, "awc": r_["awc"], "for": r_["addr"]}
+            for i in range(10)] + [{"k": "Return", "res": "err", "us": W * 1000 + W * 20}]
+        name = "control: conforming synthetic timeout run %d" % r_["vec"]
+        if name not in synth:
+            synth[name] = True
+            cases.append([name, copy.deepcopy(r_), False, None])
+        return r_, name
+
+    def c_state():
+        c = pick(lambda r_: r_["entry"] == "SendV2" and r_["st"] == "uninit" and r_["ver"] == "V4R2" and run_facts(r_)["sent"])
+        for s in c["steps"]:
+            if s["k"] == "GetState":
+                s["st"], s["n"] = "active", "5"
+        return c
+    add("S->C run: logged account state changed to active(5)", c_state)
+
+    def with_base(name, mod, extra=lambda r_: True):
+        try:
+            c, dep = timeout_base(extra)
+            mod(c)
+            cases.append([name, c, True, dep])
+        except (LookupError, StopIteration):
+            skipped.append(name)
+
+    def m_ok(c):
+        c["steps"][-1]["res"] = "ok"
+    with_base("S->C run: timeout logged as success", m_ok)
+
+    def m_adv(c):
+        k = [i for i, s in enumerate(c["steps"]) if s["k"] == "Poll"][2]
+        c["steps"][k]["r"], c["steps"][k]["v"] = "val", "4294967295"
+    with_base("S->C run: a poll reports the seqno advanced, polling continues to the timeout", m_adv, notmax)
+    sig = cases[-1][1] if cases and cases[-1][0].startswith("S->C run: a poll reports") else None
+
+    def m_early(c):
+        c["steps"] = [s for s in c["steps"] if s["k"] != "Poll"][:-1] + [{"k": "Return", "res": "err", "us": W * 300}]
+    with_base("S->C run: error returned at a third of the window", m_early)
+
+    def c_dest():
+        c = pick(lambda r_: run_facts(r_)["sent"] and r_["wc"] == 0)
+        c["wc"] = 1
+        return c
+    add("S->C run: destination is not the wallet's own address", c_dest)
+
+    def c_nosend():
+        c = pick(lambda r_: r_["entry"] == "Send" and run_facts(r_)["sent"] and run_facts(r_)["res"] == "ok")
+        c["steps"] = [s for s in c["steps"] if s["k"] != "Send"]
+        return c
+    add("S->C run: Send step dropped", c_nosend)
+
+    def c_init():
+        c = pick(lambda r_: r_["entry"] == "SendV2" and r_["st"] == "none" and run_facts(r_)["sent"] and r_["ver"] == "V5R1")
+        for s in c["steps"]:
+            if s["k"] == "GetState":
+                s["st"], s["n"] = "active", "0"
+        return c
+    add("S->C run: init attached although the account is active", c_init)
+    add("control: an accepted run", lambda: pick(lambda r_: True))
+    cases[-1][2] = False
     # --- addresses
     aev = [e for e in addr["events"] if e["k"] == "Addr" and e["_ok"]]
     clean = lambda e: {k: v for k, v in e.items() if k != "_ok"}
 
-    def apick(pred, what):
+    def apick(pred):
         for e in aev:
             if pred(e):
                 return copy.deepcopy(clean(e))
-        raise Infra("no accepted address event to build the canary '%s' from" % what)
-    c = apick(lambda e: e["api"] == "New.GetAddress", "addr digit")
-    c["addr"] = c["addr"][:-1] + ("0" if c["addr"][-1] != "0" else "1")
-    evs.append(c); names.append("addr: one hex digit of the address changed")
-    c = apick(lambda e: e["ver"] == "V3R2" and e["sub"] == "1", "sub")
-    c["sub"] = "0"
-    evs.append(c); names.append("addr: logged sub-wallet id changed")
-    c = apick(lambda e: e["ver"] == "V5R1" and e["has_net"] and e["net"] == -3, "net")
-    c["net"] = -239
-    evs.append(c); names.append("addr: logged network id changed (v5r1)")
-    c = apick(lambda e: e["ver"] == "V4R2" and e["wc_set"] and e["wc"] == -1 and e["sub"] == "" and e["api"] == "GenerateStateInit", "wc")
-    c["wc"], c["awc"] = 0, 0
-    evs.append(c); names.append("addr: logged workchain changed (default sub-wallet id depends on it)")
-    c = apick(lambda e: e["ver"] == "HighLoadV2R2" and e["api"] == "Wallet.StateInit", "cells")
-    c["cells"][-1]["b"] = c["cells"][-1]["b"][:-1] + ("0" if c["cells"][-1]["b"][-1] == "1" else "1")
-    evs.append(c); names.append("addr: one bit of the returned state-init cells changed")
-    c = apick(lambda e: e["ver"] == "V3R1", "version")
-    c["ver"] = "V3R2"
-    evs.append(c); names.append("addr: logged version changed")
-    cd = [e for e in vlib.read_ndjson(codes)]
-    c = copy.deepcopy(next(e for e in cd if e["ver"] == "V4R1")); c["boc"] = next(e for e in cd if e["ver"] == "V4R2")["boc"]
-    evs.append(c); names.append("code: V4R1 labelled bag is the V4R2 code")
-    rows4 = [r_ for r_ in addr["rows"] if r_["ver"] == "V4R2"][:300]
-    rows = copy.deepcopy(rows4)
-    a = next(i for i, r_ in enumerate(rows) if r_["ver"] == "V4R2")
-    b = next(i for i, r_ in enumerate(rows) if r_["ver"] == "V4R2" and (r_["sub"], r_["wc"], r_["pub"]) != (rows[a]["sub"], rows[a]["wc"], rows[a]["pub"]) and r_["awc"] == rows[a]["awc"])
-    rows[b]["addr"] = rows[a]["addr"]
-    evs.append({"k": "Distinct", "rows": rows}); names.append("distinct: two different inputs given the same address")
-    # originals that must stay accepted
-    orig = [copy.deepcopy(acc[0]), clean(aev[0]), {"k": "Distinct", "rows": rows4}]
-    rej, notes = quiet_judge(ck, evs + orig, "canary", codes)
+        raise LookupError()
+
+    def flip(h):
+        return h[:-1] + ("0" if h[-1] != "0" else "1")
+
+    def upd(pred, **kw):
+        def f():
+            c = apick(pred)
+            for k, v in kw.items():
+                c[k] = v(c) if callable(v) else v
+            return c
+        return f
+    add("C->S addr: one hex digit of the address changed", upd(lambda e: e["api"] == "New.GetAddress", addr=lambda c: flip(c["addr"])))
+    add("C->S addr: logged sub-wallet id changed", upd(lambda e: e["ver"] == "V3R2" and e["sub"] == "1", sub="0"))
+    add("C->S addr: logged network id changed (v5r1)", upd(lambda e: e["ver"] == "V5R1" and e["has_net"] and e["net"] == -3, net=-239))
+    add("C->S addr: logged workchain changed (the default sub-wallet id depends on it)",
+        upd(lambda e: e["ver"] == "V4R2" and e["wc_set"] and e["wc"] == -1 and e["sub"] == "" and e["api"] == "GenerateStateInit", wc=0, awc=0))
+
+    def c_cells():
+        c = apick(lambda e: e["ver"] == "HighLoadV2R2" and e["api"] == "Wallet.StateInit")
+        c["cells"][-1]["b"] = flip(c["cells"][-1]["b"])
+        return c
+    add("C->S addr: one bit of the returned state-init cells changed", c_cells)
+    add("C->S addr: logged version changed", upd(lambda e: e["ver"] == "V3R1", ver="V3R2"))
+    add("control: an accepted address event", lambda: apick(lambda e: True))
+    cases[-1][2] = False
+    cd = vlib.read_ndjson(codes)
+    c = copy.deepcopy(next(e for e in cd if e["ver"] == "V4R1"))
+    c["boc"] = next(e for e in cd if e["ver"] == "V4R2")["boc"]
+    cases.append(["C->S code: the bag labelled V4R1 is the V4R2 code", c, True, None])
+    rows4 = [r_ for r_ in addr["rows"] if r_["ver"] == "V4R2" and r_["_ok"]][:300]
+    rows4 = [{k: v for k, v in r_.items() if k != "_ok"} for r_ in rows4]
+
+    def c_distinct():
+        rows = copy.deepcopy(rows4)
+        try:
+            a = 0
+            b = next(i for i, r_ in enumerate(rows) if (r_["sub"], r_["wc"], r_["pub"]) != (rows[a]["sub"], rows[a]["wc"], rows[a]["pub"]) and r_["awc"] == rows[a]["awc"])
+        except (StopIteration, IndexError):
+            raise LookupError()
+        rows[b]["addr"] = rows[a]["addr"]
+        return {"k": "Distinct", "rows": rows}
+    add("C->S distinct: two different inputs given the same address", c_distinct)
+    if rows4:
+        cases.append(["control: distinctness over accepted V4R2 rows", {"k": "Distinct", "rows": rows4}, False, None])
+    rej, notes = quiet_judge(ck, [c[1] for c in cases], "canary", codes)
     bad = {r_["line"] for r_ in rej}
-    for i, nm in enumerate(names):
-        ck.canary(("S->C " if i < nrun else "C->S ") + nm, (i + 1) in bad)
-    ck.canary("unaltered records stay accepted", not any(len(evs) + j + 1 in bad for j in range(len(orig))))
-    out_why = {i + 1: first_note(notes, i + 1, "run") for i in range(nrun)}
-    if run_key(evs[2], out_why[3]) != "C15:confirm:err==nil-continue":
-        raise Infra("canary 3 was rejected for another reason than expected: %s" % out_why[3])
+    verdict = {c[0]: (i + 1) in bad for i, c in enumerate(cases)}
+    reported = bool(ck.violations or ck.known_hit)
+    for i, (name, evt, must_reject, dep) in enumerate(cases):
+        if dep is not None and verdict.get(dep):
+            skipped.append(name)          # its synthetic base is itself rejected (the message the code produced is wrong)
+            continue
+        if must_reject:
+            ck.canary(name, verdict[name])
+        elif verdict[name] and name.startswith("control: conforming synthetic") and reported:
+            skipped.append(name)
+        else:
+            ck.canary(name, not verdict[name])
+    if sig is not None and verdict.get(cases[[c[0] for c in cases].index("S->C run: a poll reports the seqno advanced, polling continues to the timeout")][0]):
+        i = [c[0] for c in cases].index("S->C run: a poll reports the seqno advanced, polling continues to the timeout")
+        why = first_note(notes, i + 1, "run")
+        if run_key(sig, why) != "C15:confirm:err==nil-continue":
+            raise Infra("the defect-signature canary was rejected for another reason than expected: %s" % why)
+    if skipped:
+        if not reported:
+            raise Infra("canaries could not be built: %s" % skipped)
+        ck.notes.append("canaries not constructible from this run's records (violations are reported instead): %s" % "; ".join(skipped))
+    if len([c for c in ck.canaries if c["rejected"]]) < 8 and not reported:
+        raise Infra("too few canaries")
 
 
 # ---------------------------------------------------------------------------------------------- entry points
@@ -456,7 +560,7 @@ def run(ck):
                        "v5r1: sub-wallet id = the 15-bit counter of the client context id (ids >= 2^15 outside the domain); v1/v2 have no sub-wallet id, non-v5 no network id",
                        "frozen account: seqno/init unconstrained; confirmation on a highload wallet (no seqno) may be refused after sending",
                        "time: deadline judged with a slack of one poll interval (window/10); an error later than 2 windows + 2 s is rejected; scripted polls "
-                       "not reached before the deadline are replayed again with a 4x window; confirmation violations are reproduced with a 3x window before being reported",
+                       "not reached before the deadline are replayed again with a 3x window; confirmation violations are reproduced with a 3x window before being reported",
                        "mnemonic -> key derivation (PBKDF2) is not part of the statement: DefaultWalletFromSeed is judged against the key SeedToPrivateKey derives",
                        "scripted chain answers errors as (0, error)"]
     ck.build_vh()
